@@ -287,6 +287,20 @@ pub fn display(v: &V) -> String {
     out
 }
 
+pub const DISPLAY_LIMIT: usize = 1 << 16;
+
+/// `display`, or None when the text exceeds 64 KiB (the caller discards the case)
+pub fn display_checked(v: &V) -> Option<String> {
+    let mut out = String::new();
+    let mut visiting = Vec::new();
+    disp(v, &mut out, &mut visiting);
+    if out.len() > DISPLAY_LIMIT {
+        None
+    } else {
+        Some(out)
+    }
+}
+
 fn disp(v: &V, out: &mut String, visiting: &mut Vec<usize>) {
     match v {
         V::Nil => out.push_str("nil"),
@@ -303,6 +317,9 @@ fn disp(v: &V, out: &mut String, visiting: &mut Vec<usize>) {
             out.push('[');
             let items = x.items.borrow();
             for (i, e) in items.iter().enumerate() {
+                if out.len() > 4 * DISPLAY_LIMIT {
+                    break;
+                }
                 if i > 0 {
                     out.push_str(", ");
                 }
